@@ -6,6 +6,8 @@ from .. import common, fsrun
 
 SRC_CHANGED = b"int   a;\nvoid f(){return;}\n"
 SRC_FAIL = b"#endif\n"
+# more than two stdio buffers of output: only then does libc flush in the middle of the write, and a fault can be transient
+SRC_BIG = b"".join(b"int   f%d(int a){if(a){return a+%d;}return   %d;}\n" % (i, i, i) for i in range(260))
 CFG_A = ""
 SRC_SAMELEN = b"char* p;\nchar* q;\n"
 CFG_SAMELEN = "sp_before_ptr_star=force\nsp_after_ptr_star=remove\n"
